@@ -224,7 +224,8 @@ func (proc *Processor) ExecuteStatement(ctx context.Context, stmt parser.Stateme
 							err = e
 						}
 					} else if !proc.Tx.Flags.ExportOptions.StripEndingLineBreak &&
-						!(proc.Tx.Session.OutFile() != nil && exportOptions.Format == option.FIXED && exportOptions.SingleLine) {
+						!(proc.Tx.Session.OutFile() != nil && exportOptions.Format == option.FIXED && exportOptions.SingleLine) &&
+						exportOptions.Format != option.JSONL {
 						_, err = writer.Write([]byte(proc.Tx.Flags.ExportOptions.LineBreak.Value()))
 					}
 				}
